@@ -44,6 +44,7 @@ Take(op) ==
     [] op.k = "insert" -> pid \in ParentIds /\ op.ms \in Material /\ InsertIdxOK(pid, op.i, op.ms) /\ InsertS(pid, op.i, op.ms)
     [] op.k = "append" -> pid \in ParentIds /\ op.ms \in Material /\ AppendS(pid, op.ms)
     [] op.k = "rename" -> RenameOK(id) /\ op.nm \in NewNames /\ RenameS(id, op.nm)
+    [] op.k = "copy_append" -> CopyOK(id, pid) /\ CopyAppendS(id, pid)
     [] op.k = "set_string" -> SetStringOK(id) /\ op.s \in NewStrings /\ SetStringS(id, op.s)
     [] OTHER -> id \in NodeTargetIds /\ op.k \in ArgsOps /\ ArgsOK(op.k, id, op.i, op.s) /\ ArgsS(op.k, id, op.i, op.s)
 Matching == estage = "edit" /\ Take(Ev.op)
